@@ -415,6 +415,10 @@ fn evidence(o: &CheckOpts, res: &BatchResult, det: (u64, u64), new_violations: u
         }
         cells = cells.put(space, c);
     }
+    let mut counters_j = J::obj();
+    for (k, v) in &st.counters {
+        counters_j = counters_j.put(k, J::i(*v));
+    }
     let mut worlds_j = J::obj();
     for (w, n) in &st.worlds {
         worlds_j = worlds_j.put(w, J::i(*n));
@@ -433,12 +437,13 @@ fn evidence(o: &CheckOpts, res: &BatchResult, det: (u64, u64), new_violations: u
         .put("seeds", J::s(format!("VERIF_SEED={} x run index 0..{}", o.seed, st.runs)))
         .put("sim_time_s", J::Num(st.sim_time_us as f64 / 1e6))
         .put("worlds", worlds_j)
+        .put("counters", counters_j)
         .put("faults_fired", faults)
         .put("fault_kinds_never_fired", J::strs(never))
         .put("cells", cells)
         .put("components", J::obj().put("real", J::strs(meta.real.iter().copied())).put("stub", J::strs(meta.stub.iter().copied())))
         .put("determinism", J::obj().put("runs_reexecuted", J::i(det.0)).put("worker_counts", J::Arr(vec![J::i(1), J::i(o.threads as u64)])).put("mismatches", J::i(det.1)))
-        .put("heap_bound_max_use", J::obj().put("permille_of_bound", J::i(st.heap_margin.0)).put("entry_point", J::s(st.heap_margin.1.clone())))
+        .put("heap_bound_max_use", if prop == Prop::C01 { J::obj().put("permille_of_bound", J::i(st.heap_margin.0)).put("entry_point", J::s(st.heap_margin.1.clone())) } else { J::s("not measured (heap oracle belongs to C01)") })
         .put("known_findings_hit", J::strs(known_hits.iter().cloned()))
         .put("exhaustive", J::Bool(false));
     J::obj()
